@@ -32,7 +32,7 @@ func init() {
 		)
 		us = append(us, c19Extra(tier)...)
 		// last: it takes whatever budget the other units leave
-		us = append(us, Search{Sc: FaultSearch{}, Depth: 3 + d/2})
+		us = append(us, Search{Sc: FaultSearch{}, Depth: 4 + d/2})
 		return CheckSpec{MustSee: []string{"launch-rolled-back", "allocation-rolled-back", "send-failure-stops-only-that-consumer", "fault:DeleteConsumerChain/channel.ChanCloseInit", "fault:LaunchConsumer/client.CreateClient", "fault-points-in-histories", "blocks-with-fault-points"}, Level: "fault_enumeration", Rule: "part (i): every block event of every listed scenario asserts that BeginBlock/EndBlock return no error, do not panic and return validator updates CometBFT would accept; part (ii): fault enumeration, see units; distinct_nontrivial = distinct states / fault points", Assumptions: commonAssumptions, Budget: budget, Units: us}
 	})
 }
